@@ -76,7 +76,9 @@ impl Exec {
         simos::with_ctx(|c| c.io.begin_op(op));
     }
     pub fn api(&mut self, name: &str, outcome: &str) {
-        simos::with_ctx(|c| c.io.api(name, outcome));
+        // error texts may quote paths on the sim disk, which contain the process id and the worker number
+        let scrubbed = outcome.replace(&self.disk, "<disk>");
+        simos::with_ctx(|c| c.io.api(name, &scrubbed));
     }
     pub fn jump_clock(&mut self, s: i64) {
         simos::with_ctx(|c| c.jump_clock(s));
@@ -139,6 +141,11 @@ pub trait Prop: Sync + Send + Copy + 'static {
     fn stub_components(&self) -> Vec<&'static str>;
     /// one-time preparation on the main thread (loading schemas, ...)
     fn prepare(&self) {}
+    /// run the batch in single-threaded worker *processes* instead of worker threads (needed when a dependency
+    /// keeps process-global pools whose state depends on thread contention)
+    fn process_isolated(&self) -> bool {
+        false
+    }
     /// blind spots computed from the aggregated counters (dynamic coverage requirements)
     fn post_check(&self, _counters: &BTreeMap<String, u64>, _tier: Tier) -> Vec<String> {
         Vec::new()
@@ -300,6 +307,11 @@ pub struct Options {
     pub workers: usize,
     pub hashes_out: Option<String>,
     pub no_evidence: bool,
+    /// print the case and the full event log of one run index and exit
+    pub dump_run: Option<u64>,
+    /// worker process k of n (process-isolated properties): handle run indices = k mod n, write the partial
+    /// aggregate to the given file
+    pub child: Option<(u64, u64, String)>,
 }
 
 pub fn scratch_root() -> String {
@@ -363,6 +375,7 @@ fn run_seed(seed: u64, id: &str, idx: u64) -> u64 {
     mix(&[seed, str_id(id), idx])
 }
 
+#[derive(Serialize, serde::Deserialize)]
 struct WorkerAgg {
     runs: u64,
     counters: BTreeMap<String, u64>,
@@ -405,58 +418,121 @@ pub fn run_check<P: Prop>(prop: &P, opt: &Options) -> i32 {
             prop.gen(&mut rng, opt.tier, idx - n_enum)
         }
     };
-    std::thread::scope(|s| {
-        for w in 0..opt.workers {
-            let (next, stop, aggs, root, case_for) = (&next, &stop, &aggs, &root, &case_for);
-            s.spawn(move || {
-                let disk = format!("{}/w{}", root, w);
-                let _ = std::fs::create_dir_all(&disk);
-                let mut a = WorkerAgg { runs: 0, counters: BTreeMap::new(), hashes: HashSet::new(), all_hashes: vec![], violations: vec![], samples: vec![], harness_errors: vec![], sim_clock_s: 0, trivial: 0 };
-                loop {
-                    if stop.load(Ordering::Relaxed) {
-                        break;
-                    }
-                    let idx = next.fetch_add(1, Ordering::Relaxed);
-                    if idx >= total {
-                        break;
-                    }
-                    let case = case_for(idx);
-                    let out = run_case(prop, &case, &disk, false);
-                    a.runs += 1;
-                    for (k, v) in out.counters {
-                        *a.counters.entry(k).or_insert(0) += v;
-                    }
-                    a.sim_clock_s += out.sim_clock_s;
-                    if out.nontrivial {
-                        a.hashes.insert(out.log_hash);
-                    } else {
-                        a.trivial += 1;
-                    }
-                    if want_all_hashes {
-                        a.all_hashes.push((idx, out.log_hash));
-                    }
-                    if let Some(m) = out.harness_panic {
-                        a.harness_errors.push((idx, m));
-                        stop.store(true, Ordering::Relaxed);
-                    }
-                    for v in out.violations {
-                        if v.class.ends_with(":no-progress:watchdog") {
-                            // a run that does not terminate leaves a spinning thread behind: report and stop the batch
-                            stop.store(true, Ordering::Relaxed);
-                        }
-                        if a.violations.len() < 64 {
-                            a.violations.push((idx, v));
-                        }
-                    }
-                    if a.samples.len() < 3 && (idx % 7 == 3 || idx < 2) {
-                        a.samples.push((idx, prop.sample(&case)));
-                    }
-                }
-                let _ = std::fs::remove_dir_all(&disk);
-                aggs.lock().unwrap().push(a);
-            });
+    if let Some(idx) = opt.dump_run {
+        let disk = format!("{}/dump", root);
+        let _ = std::fs::create_dir_all(&disk);
+        let case = case_for(idx);
+        println!("{}", serde_json::to_string_pretty(&case).unwrap_or_default());
+        let out = run_case(prop, &case, &disk, true);
+        for l in &out.api_log {
+            println!("  {}", l);
         }
-    });
+        for l in &out.events {
+            println!("  {}", l);
+        }
+        println!("log_hash={:016x} violations={:?}", out.log_hash, out.violations);
+        let _ = std::fs::remove_dir_all(&root);
+        return 0;
+    }
+    let worker_loop = |w: usize, first: u64, step: u64| -> WorkerAgg {
+        let disk = format!("{}/w{}", root, w);
+        let _ = std::fs::create_dir_all(&disk);
+        let mut a = WorkerAgg { runs: 0, counters: BTreeMap::new(), hashes: HashSet::new(), all_hashes: vec![], violations: vec![], samples: vec![], harness_errors: vec![], sim_clock_s: 0, trivial: 0 };
+        let mut own = first;
+        loop {
+            if stop.load(Ordering::Relaxed) {
+                break;
+            }
+            // threads share a counter; worker processes take every step-th index
+            let idx = if step == 0 {
+                next.fetch_add(1, Ordering::Relaxed)
+            } else {
+                let i = own;
+                own += step;
+                i
+            };
+            if idx >= total {
+                break;
+            }
+            let case = case_for(idx);
+            let out = run_case(prop, &case, &disk, false);
+            a.runs += 1;
+            for (k, v) in out.counters {
+                *a.counters.entry(k).or_insert(0) += v;
+            }
+            a.sim_clock_s += out.sim_clock_s;
+            if out.nontrivial {
+                a.hashes.insert(out.log_hash);
+            } else {
+                a.trivial += 1;
+            }
+            if want_all_hashes {
+                a.all_hashes.push((idx, out.log_hash));
+            }
+            if let Some(m) = out.harness_panic {
+                a.harness_errors.push((idx, m));
+                stop.store(true, Ordering::Relaxed);
+            }
+            for v in out.violations {
+                if v.class.ends_with(":no-progress:watchdog") {
+                    // a run that does not terminate leaves a spinning thread behind: report and stop the batch
+                    stop.store(true, Ordering::Relaxed);
+                }
+                if a.violations.len() < 64 {
+                    a.violations.push((idx, v));
+                }
+            }
+            if a.samples.len() < 3 && (idx % 7 == 3 || idx < 2) {
+                a.samples.push((idx, prop.sample(&case)));
+            }
+        }
+        let _ = std::fs::remove_dir_all(&disk);
+        a
+    };
+    if let Some((k, n, path)) = &opt.child {
+        let a = worker_loop(*k as usize, *k, *n);
+        let ok = std::fs::write(path, serde_json::to_string(&a).unwrap_or_default()).is_ok();
+        let _ = std::fs::remove_dir_all(&root);
+        return if ok { 0 } else { 2 };
+    }
+    if prop.process_isolated() && opt.workers > 1 {
+        let exe = std::env::current_exe().expect("current_exe");
+        let mut kids = vec![];
+        for k in 0..opt.workers {
+            let path = format!("{}/child-{}.json", root, k);
+            let mut c = std::process::Command::new(&exe);
+            c.arg(id).arg("--tier").arg(opt.tier.name()).arg("--child").arg(k.to_string()).arg(opt.workers.to_string()).arg(&path).env("VERIF_SEED", (opt.seed as i64).to_string());
+            if let Some(r) = opt.runs {
+                c.arg("--runs").arg(r.to_string());
+            }
+            if want_all_hashes {
+                c.arg("--hashes-out").arg("/dev/null");
+            }
+            c.stdout(std::process::Stdio::null());
+            kids.push((path, c.spawn().expect("spawn worker process")));
+        }
+        for (path, mut ch) in kids {
+            let st = ch.wait().ok().and_then(|s| s.code());
+            match std::fs::read_to_string(&path).ok().and_then(|s| serde_json::from_str::<WorkerAgg>(&s).ok()) {
+                Some(a) if st == Some(0) => aggs.lock().unwrap().push(a),
+                _ => {
+                    eprintln!("HARNESS-ERROR: worker process for {} failed (exit {:?})", id, st);
+                    let _ = std::fs::remove_dir_all(&root);
+                    return 2;
+                }
+            }
+        }
+    } else {
+        std::thread::scope(|s| {
+            for w in 0..opt.workers {
+                let (aggs, worker_loop) = (&aggs, &worker_loop);
+                s.spawn(move || {
+                    let a = worker_loop(w, 0, 0);
+                    aggs.lock().unwrap().push(a);
+                });
+            }
+        });
+    }
     // merge
     let aggs = aggs.into_inner().unwrap();
     let mut runs = 0;
